@@ -1,18 +1,22 @@
 import IdenaModel.Model.Flags
 import IdenaModel.Model.FeeRate
+import IdenaModel.Model.VrfWindow
 import IdenaModel.Drivers.Util
 /-! Driver for channel C03flags: derived header flags and the validation-period machine on real chain histories.
 `new <flipLotteryNs> <shortNs> <snapshotRange> <statusSwitchRange> <delegationSwitchRange> <discriminationSwitchRange> <genesisAfterUpgrade>`
 `sync <period> <nextValidation> <cnt> <shardsNum> <lastSnapshot> <empty>` — the modelled part of the real state (at the start,
 after every epoch change — next validation time and shard number are set by `applyNewEpoch` — and after chain resets);
 `blk <height> <time> <isEmpty> <hasKill> <longNs> <statusSwitch> <delayedPenalties> <delegations> <discrimination> <prevUpgrade>
-<cerShards> <proposer> <proposerShard> <proposerValidated> <onlineSize>` — answers the flags of the block and the state after it. -/
+<cerShards> <proposer> <proposerShard> <proposerValidated> <onlineSize>` — answers the flags of the block and the state after it;
+`vsync <bits>` — the empty-block window as stored; `bits <isEmpty>` — the window and the empty-block count after the block;
+`vrfdir` — the direction in which `applyVrfProposerThreshold` moves the threshold for the current count. -/
 namespace IdenaModel.Drv.C03F
 open IdenaModel.Flags IdenaModel.Drv
 
 structure DSt where
   c : Cfg
   s : St
+  w : Nat := 0
 
 def init : DSt := { c := ⟨0, 0, 1, 1, 1, 1, false⟩, s := ⟨0, 0, 0, [], 1, 0⟩ }
 
@@ -63,6 +67,14 @@ def step (st : DSt) (line : String) : DSt × String :=
     match p.toNat?, u.toNat?, m.toNat?, kn.toNat?, ks.toNat?, n.toNat? with
     | some p, some u, some m, some kn, some ks, some n => (st, s!"fee {IdenaModel.FeeRate.nextFee p u m kn ks n}")
     | _, _, _, _, _, _ => (st, "bad-op")
+  | ["vsync", w] =>
+    match w.toNat? with
+    | some w => ({ st with w := w }, "ok")
+    | none => (st, "bad-op")
+  | ["bits", e] =>
+    let w := IdenaModel.VrfWindow.addBit st.w (b e)
+    ({ st with w := w }, s!"bits={w} cnt={IdenaModel.VrfWindow.emptyCount w}")
+  | ["vrfdir"] => (st, s!"dir={IdenaModel.VrfWindow.dir (IdenaModel.VrfWindow.emptyCount st.w)}")
   | ["minfee", n] =>
     match n.toNat? with
     | some n => (st, s!"fee {IdenaModel.FeeRate.minFee n}")
